@@ -199,6 +199,34 @@ static void key_history(Stats &st, const Args &a) {
     if (!bad.empty()) { st.violation("C01:" + bad + ":" + prov_name(prov), "a reused checker judges a token under a key other than the one it holds", "{\"kind\":\"key-history\",\"prov\":" + std::to_string(prov) + ",\"pair\":" + std::to_string(pi) + ",\"variant\":" + std::to_string(variant) + ",\"a\":\"" + pr.a + "\",\"b\":\"" + pr.b + "\",\"alg\":\"" + jwt_alg_str(pr.alg) + "\"}"); return; }
   }
 }
+// ---- "over exactly the bytes of the first two segments", also while OTHER threads verify: several threads, each with its own checker, share one
+// read-only key; half of them verify a genuine token, the others a token that carries the genuine signature under another payload
+#include <thread>
+#include <atomic>
+static std::string concurrent_retarget_case(int prov, const char *kn, jwt_alg_t alg, int iters, long *overl) {
+  const KeySpec &k = POOL.get(kn); bool oct = k.kind == K_OCT; set_provider(prov);
+  JwkOpts o; o.priv = oct; LKey key(jwk_json(k, o)); if (!key.ok()) return "";
+  std::string hdr = std::string("{\"alg\":\"") + jwt_alg_str(alg) + "\"}", good = ref_token(k, alg, hdr, "{\"k\":\"genuine\",\"n\":1}"); TokParts tp = split_token(good); if (!tp.ok) return "";
+  std::string forged = tp.h + "." + b64u_enc("{\"k\":\"forged\",\"n\":2}") + "." + tp.s;
+  std::atomic<long> accepted_forged{0}, rejected_good{0}; std::atomic<int> running{0}; std::atomic<long> overlaps{0};
+  auto work = [&](bool forge) { jwt_checker_t *ch = jwt_checker_new(); if (jwt_checker_setkey(ch, alg, key.item)) { jwt_checker_free(ch); return; }
+    for (int i = 0; i < iters; i++) { if (running.fetch_add(1) > 0) overlaps++; int r = jwt_checker_verify(ch, forge ? forged.c_str() : good.c_str()); running--; if (forge && r == 0) accepted_forged++; if (!forge && r != 0) rejected_good++; }
+    jwt_checker_free(ch); };
+  std::vector<std::thread> th; for (int t = 0; t < 4; t++) th.emplace_back(work, (t & 1) != 0); for (auto &x : th) x.join();
+  if (overl) *overl = overlaps.load();
+  if (accepted_forged.load()) return "accepts-retargeted-signature-while-another-thread-verifies-the-genuine-token";
+  return "";
+}
+static void concurrent_retarget(Stats &st, const Args &a) {
+  struct C { const char *k; jwt_alg_t alg; int iters; }; static const C cs[] = {{"oct64", JWT_ALG_HS256, 20000}, {"oct64", JWT_ALG_HS512, 20000}, {"oct48", JWT_ALG_HS384, 20000}, {"rsa_2048", JWT_ALG_RS256, 400}, {"ec_p256", JWT_ALG_ES256, 200}, {"ed25519", JWT_ALG_EDDSA, 300}};
+  int idx = 0;
+  for (size_t ci = 0; ci < sizeof(cs) / sizeof(cs[0]); ci++) for (int prov = 0; prov < 2; prov++) {
+    if ((idx++ % a.nworkers) != a.worker) continue;
+    long ov = 0; std::string r = concurrent_retarget_case(prov, cs[ci].k, cs[ci].alg, a.thorough() ? cs[ci].iters * 5 : cs[ci].iters, &ov);
+    st.evaluations++; st.cls("concurrent-retarget-cells"); st.cls("concurrent-retarget:overlapping-verifies", ov); if (ov > 0) st.nontrivial(mix(fnv("conc"), ci * 2 + prov));
+    if (!r.empty()) { st.violation("C01:" + r + ":" + prov_name(prov), "a checker accepted a token whose signature belongs to another token, while other threads were verifying", "{\"kind\":\"concurrent-retarget\",\"prov\":" + std::to_string(prov) + ",\"cell\":" + std::to_string(ci) + ",\"key\":\"" + cs[ci].k + "\",\"alg\":\"" + jwt_alg_str(cs[ci].alg) + "\"}"); return; }
+  }
+}
 static void ecdsa_specials(Stats &st, const Args &a) {
   std::vector<std::pair<size_t, int>> ec; for (size_t ki = 0; ki < KEYS.size(); ki++) for (int ai = 0; ai < NALGS; ai++) if (KEYS[ki]->kind == K_EC && strength_ok(*KEYS[ki], ALGS[ai].alg)) ec.push_back({ki, ai});
   for (size_t ci = 0; ci < ec.size(); ci++) {
@@ -243,6 +271,9 @@ int main(int argc, char **argv) {
 
   if (!a.replay.empty()) {
     J j = J::parse(read_file(a.replay)); if (!j) return 2;
+    if (json_object_get(j.p, "kind") && !strcmp(json_string_value(json_object_get(j.p, "kind")), "concurrent-retarget")) {   // schedule dependent: several attempts
+      const char *kn = json_string_value(json_object_get(j.p, "key")); jwt_alg_t alg = jwt_str_alg(json_string_value(json_object_get(j.p, "alg")));
+      for (int i = 0; i < 5; i++) if (!concurrent_retarget_case((int)json_integer_value(json_object_get(j.p, "prov")), kn, alg, 40000, nullptr).empty()) return 3; return 0; }
     if (json_object_get(j.p, "kind") && !strcmp(json_string_value(json_object_get(j.p, "kind")), "key-history")) {
       const char *an = json_string_value(json_object_get(j.p, "a")), *bn = json_string_value(json_object_get(j.p, "b")); jwt_alg_t alg = jwt_str_alg(json_string_value(json_object_get(j.p, "alg")));
       return key_history_case((int)json_integer_value(json_object_get(j.p, "prov")), an, bn, alg, (int)json_integer_value(json_object_get(j.p, "variant"))).empty() ? 0 : 3; }
@@ -267,6 +298,8 @@ int main(int argc, char **argv) {
   same_address_other_key(st, a);
   if (!st.violations.empty()) return finish();
   key_history(st, a);
+  if (!st.violations.empty()) return finish();
+  concurrent_retarget(st, a);
   if (!st.violations.empty()) return finish();
   uint64_t n = a.thorough() ? 150000 : 2500;
   if (a.kv.count("cases")) n = strtoull(a.kv["cases"].c_str(), 0, 10);
